@@ -1,4 +1,4 @@
 (* Extraction of the C13 model: ExtrOcamlBasic + ExtrOcamlString only; nat/N stay inductive. *)
 From Coq Require Import Extraction ExtrOcamlBasic ExtrOcamlString.
 From LC Require Import Common IdsDefs.
-Extraction "ids_model.ml" cfg_fixed cfg_pinned init run wf kind_index acc_index hex.
+Extraction "ids_model.ml" cfg_fixed cfg_pinned init run minit mrun wf kind_index acc_index hex.
